@@ -15,7 +15,7 @@ import json, os, re, shutil, time
 import checklib
 
 CID = "C05"
-HOOKS = ["engine", "lib/fileops", "lib/util/lifted/influx/meta"]
+HOOKS = ["engine", "lib/fileops", "lib/raftconn", "lib/util/lifted/influx/meta"]
 # (name, package, test function, binary name)
 BINARIES = [
     ("a", "engine", "TestVerifC05", "t-engine.bin"),
